@@ -5,6 +5,7 @@
    sequential core of Close()/GracefulStop (the flush). The all-schedules partial theorem
    planned in DESIGN 7/C16 (C16_partial_no_lifecycle_race) is not proved. *)
 From HV Require Import Base.Prelude Conc.Lifecycle Conc.LifecycleProofs.
+From HV Require Conc.Buffer Conc.BufferProofs.
 
 (* (i) W1 deletes the last record and decides to auto-destroy while W2 inserts: W2's write is
    acknowledged, Destroy drains W2's vigil and removes the file. Both write modes. *)
@@ -37,3 +38,69 @@ Theorem C16_close_flush_durable : forall s i k,
   last_op k (pend (insts s i)) None = Some true -> mem_nat k (disk (close_flush s i)) = true.
 Proof. exact close_flush_durable. Qed.
 Print Assumptions C16_close_flush_durable.
+
+(* ---- the write buffer of one instance (Conc/Buffer.v: record objects, key-indexed queue,
+   concurrent flushers), for EVERY schedule of any number of writers, deleters and flushers [ts]
+   in which no key is re-created while an unwritten batch still holds its old record object
+   ([no_recreate]); tied to SaveFunction/deleteHandler/fileWriterHandler by trace acceptance of
+   forced flush-window schedules ---- *)
+
+(* Whenever nothing is queued and no collected batch is unwritten, the chronicler holds the
+   current value of every key that has a record. *)
+Theorem C16_buffer_quiescent_durable : forall progs ts sched k v,
+  let s := Buffer.run false (Buffer.init progs) sched in
+  Buffer.no_recreate (Buffer.init progs) ts sched = true ->
+  Buffer.queue s = [] -> (forall t, Buffer.batch (Buffer.pcs s t) = []) ->
+  Buffer.memval s k = Some v -> Buffer.disk s k = Some v.
+Proof. exact BufferProofs.buffer_quiescent_durable. Qed.
+Print Assumptions C16_buffer_quiescent_durable.
+
+(* In every reachable state a record whose current value the chronicler does not hold yet is
+   still queued or in a batch a running flusher is going to write: no acknowledged Save is ever
+   dropped from the buffer. *)
+Theorem C16_buffer_tracks_unwritten : forall progs ts sched k o,
+  let s := Buffer.run false (Buffer.init progs) sched in
+  Buffer.no_recreate (Buffer.init progs) ts sched = true ->
+  Buffer.cur s k = Some o -> Buffer.disk s k <> Some (Buffer.oval (Buffer.objs s o)) ->
+  In o (Buffer.queue s) \/ exists t, In o (Buffer.batch (Buffer.pcs s t)).
+Proof. exact BufferProofs.buffer_tracks_unwritten. Qed.
+Print Assumptions C16_buffer_tracks_unwritten.
+
+(* In every reachable state in which no other flush is in flight, the close-write of
+   Close()/GracefulStop run to completion makes every record durable with its current value. *)
+Theorem C16_close_write_makes_durable : forall progs ts sched t k v,
+  let s := Buffer.run false (Buffer.init progs) sched in
+  Buffer.no_recreate (Buffer.init progs) ts sched = true -> In t ts ->
+  Buffer.pcs s t = Buffer.FColl -> (forall x, x <> t -> Buffer.batch (Buffer.pcs s x) = []) ->
+  let s' := Buffer.run false s (repeat t (3 + length (Buffer.queue s))) in
+  Buffer.memval s' k = Some v -> Buffer.disk s' k = Some v.
+Proof. exact BufferProofs.close_write_makes_durable. Qed.
+Print Assumptions C16_close_write_makes_durable.
+
+(* The hypothesis is needed - refuted for the code as it is: delete + re-create of a key inside a
+   flush window brings the old value back, or lets the old object's tombstone delete the key.
+   Both reproduce on the real engine (known finding). *)
+Theorem C16_buffer_refuted_recreate_old_value :
+  let s := Buffer.run false (Buffer.init (Buffer.progs_of Buffer.w_stale_progs)) Buffer.w_stale_value in
+  Buffer.memval s 0 = Some 3 /\ Buffer.disk s 0 = Some 1 /\ Buffer.queue s = [] /\
+  forallb (fun t => match Buffer.batch (Buffer.pcs s t) with [] => true | _ => false end) [0;1;2;3] = true /\
+  Buffer.no_recreate (Buffer.init (Buffer.progs_of Buffer.w_stale_progs)) [0;1;2;3] Buffer.w_stale_value = false.
+Proof. exact BufferProofs.recreate_in_window_old_value_back. Qed.
+Print Assumptions C16_buffer_refuted_recreate_old_value.
+
+Theorem C16_buffer_refuted_recreate_tombstone :
+  let s := Buffer.run false (Buffer.init (Buffer.progs_of Buffer.w_stale_tomb_progs)) Buffer.w_stale_tomb in
+  Buffer.memval s 0 = Some 3 /\ Buffer.disk s 0 = None /\ Buffer.queue s = [] /\
+  forallb (fun t => match Buffer.batch (Buffer.pcs s t) with [] => true | _ => false end) [0;1;2;3;4] = true /\
+  Buffer.no_recreate (Buffer.init (Buffer.progs_of Buffer.w_stale_tomb_progs)) [0;1;2;3;4] Buffer.w_stale_tomb = false.
+Proof. exact BufferProofs.recreate_in_window_tombstone_wins. Qed.
+Print Assumptions C16_buffer_refuted_recreate_tombstone.
+
+(* Dequeuing the batch only after it was written (instead of before) loses an update that is
+   acknowledged while the batch is being written. *)
+Theorem C16_late_dequeue_refuted :
+  let s := Buffer.run true (Buffer.init (Buffer.progs_of Buffer.w_late_progs)) Buffer.w_late in
+  Buffer.memval s 0 = Some 2 /\ Buffer.disk s 0 = Some 1 /\ Buffer.queue s = [] /\
+  forallb (fun t => match Buffer.batch (Buffer.pcs s t) with [] => true | _ => false end) [0;1;2;3] = true.
+Proof. exact BufferProofs.late_dequeue_loses_update. Qed.
+Print Assumptions C16_late_dequeue_refuted.
